@@ -112,7 +112,7 @@ T_Exit == /\ IsEvent("exit")
                           ELSE "exit.timer",
                           tmr[t].st = "ended" /\ E.how = "ready")
                 ELSE \* (the state of the loop is judged first: it names what was skipped; then whose turn it was)
-                     /\ G(IF t \in Actor /\ IsBrokerType(act[t].ty) /\ act[t].pc \notin {"done", "failed"} THEN "exit.loop.broker"     \* a broker ends only with the process
+                     /\ GX(IF t \in Actor /\ IsBrokerType(act[t].ty) /\ act[t].pc \notin {"done", "failed"} THEN "exit.loop.broker"     \* a broker ends only with the process
                           ELSE IF t \in Actor /\ act[t].pc = "idle" /\ act[t].mq = <<>> /\ ~ChanOpen(t) THEN "exit.loop.closed"      \* left without stopped() after the last drop
                           ELSE IF t \in Actor /\ Leaving(t)
                           THEN (IF act[t].stream THEN "exit.loop.callback.stream"
@@ -122,7 +122,10 @@ T_Exit == /\ IsEvent("exit")
                                                   \/ act[t].pc = "dequeued" /\ act[t].curp.k = "restart"
                                                   \/ act[t].pc = "idle" /\ act[t].mq # <<>> /\ Head(act[t].mq).k = "restart") THEN "exit.loop.restart"    \* an accepted restart was not carried out
                           ELSE IF t \in Actor /\ LiveH(t, StrongKinds) THEN "exit.loop.held"      \* the task ended although strong handles exist and nobody stopped it
-                          ELSE "exit.loop", t \in Actor /\ act[t].pc \in {"done", "failed"})
+                          ELSE "exit.loop",
+                          \* (the task ended before the drain that an accepted stop promises was over: C04)
+                          SX(t) \cup (IF t \in Actor /\ hst.stopAcc[t] THEN {"C04"} ELSE {}),
+                          t \in Actor /\ act[t].pc \in {"done", "failed"})
                      /\ G("exit.how", (E.how = "panic") <=> (act[t].why = "panic"))
                      /\ G("exit.cur", cur = t /\ ~yl)
              /\ cur' = None /\ yl' = FALSE /\ UNCHANGED sys
